@@ -589,6 +589,18 @@ func (m *c17Monitor) optionContract(rule venRule, schemas ast.Schemas, b ast.Bui
 		if !sameTypeShape(p.Args[0].Type, o.Args[0].Type.Array.ValueType) {
 			m.violation(rule, "contract/array_to_append-element-type", id+": argument is not the element type")
 		}
+		// what else the option assigned (constants added by add_assignment, …) is still assigned
+		for ai := 1; ai < len(o.Assignments); ai++ {
+			found := false
+			for _, pa := range p.Assignments[1:] {
+				if samePathIdents(pa.Path, o.Assignments[ai].Path) && pa.Method == o.Assignments[ai].Method && canon(pa.Value) == canon(o.Assignments[ai].Value) {
+					found = true
+				}
+			}
+			if !found {
+				m.violation(rule, "contract/array_to_append-other-assignments-kept", fmt.Sprintf("%s: the assignment to %s is gone", id, o.Assignments[ai].Path.String()))
+			}
+		}
 	case "map_to_index":
 		if len(o.Args) != 1 || o.Args[0].Type.Kind != ast.KindMap {
 			if !unchanged {
@@ -858,6 +870,12 @@ func genVeneerRules(rng *RNG, builders []ast.Builder, n int) []venRule {
 		rules = append(rules,
 			venRule{scope: "option", kind: "add_assignment", pkg: "aim", object: "Panel", option: "title", params: map[string]string{}, yaml: y1, descr: strings.TrimSpace(y1)},
 			venRule{scope: "option", kind: "rename_arguments", pkg: "aim", object: "Panel", option: "title", params: map[string]string{}, yaml: y2, descr: strings.TrimSpace(y2), late: true})
+	case 8:
+		// an option with one array argument and a second, constant assignment, turned into an append option
+		y1 := "  - add_assignment: {by_name: Panel.tags, assignment: {path: subtitle, method: direct, value: {constant: tagged}}}\n"
+		rules = append(rules,
+			venRule{scope: "option", kind: "add_assignment", pkg: "aim", object: "Panel", option: "tags", params: map[string]string{}, yaml: y1, descr: strings.TrimSpace(y1)},
+			mkOpt("array_to_append", "tags", ""))
 	case 6:
 		// unfold_boolean, then the whole builder duplicated by a language-specific rule
 		y := "  - duplicate: {by_object: Panel, as: PanelTwin}\n"
